@@ -79,7 +79,7 @@ type Contracts struct {
 	Axioms  []Clause
 }
 
-var reFuncHdr = regexp.MustCompile(`^func\s*(\(\s*(\w+)?\s*(\*?)\s*([\w./]+)\s*\))?\s*([\w$.]+)\s*(\(([^)]*)\))?`)
+var reFuncHdr = regexp.MustCompile(`^func\s*(\(\s*(\w+)?\s*(\*?)\s*([\w./]+)\s*\))?\s*([\w$./]+)\s*(\(([^)]*)\))?`)
 
 func loadContracts(files []string) (*Contracts, error) {
 	cs := &Contracts{Funcs: map[string]*FuncSpec{}, SpecFns: map[string]*SpecFn{}}
